@@ -105,3 +105,21 @@ def state_writes(prog, f):
                 if r[0] == "const":
                     out.add(r[1])
     return out
+
+
+def field_const_writes(prog, f, field):
+    """{(adt_last, variant)} of enum constants assigned to `.field` places in f's family"""
+    out = set()
+    for g in family(prog, f):
+        for bb, s in g.stmts():
+            if ("." + field) not in [e for e in s["d"][1:] if isinstance(e, str)]:
+                continue
+            if s.get("k") == "agg":
+                out.add((last_seg(s["adt"]), s["variant"]))
+            elif s.get("k") == "use" and s["o"] and "p" in s["o"][0]:
+                locs, _ = chain_locals(g, s["o"][0]["p"][0])
+                for x in locs:
+                    for bb2, kind, d in g.defs().get(x, []):
+                        if kind == "stmt" and d.get("k") == "agg" and len(d["d"]) == 1:
+                            out.add((last_seg(d["adt"]), d["variant"]))
+    return out
